@@ -716,6 +716,8 @@ fn build_whitener<F: Fl, const K: u8>(p: &P) -> FittedWhitener<F> {
 /// the custom tokenizer function of the `*_fn_tokenizer` scenarios: split on single
 /// blanks (keeps one-letter words and trailing commas, unlike the default regex)
 fn blank_tokenizer(s: &str) -> Vec<&str> {
+    // a caller-supplied callback: instrumented for fault injection (see `fault.rs`)
+    crate::fault::tick();
     s.split(' ').filter(|t| !t.is_empty()).collect()
 }
 
